@@ -1,5 +1,5 @@
 #!/usr/bin/env python3
-"""Systematic one-token mutation campaign (complements the independently seeded changes, DESIGN.md §11.5).
+"""Systematic one-token mutation campaign (complements the independently seeded changes, DESIGN.md §11.4).
 
   tools/mutate.py survivors [file ...]   phase 1: generate the one-token mutants of the anchored source files
                                          (tools/mutgen), keep those that still BUILD and PASS the library's own test
